@@ -92,6 +92,11 @@ class Gen:
         c = r.random()
         v = self.val()
         path = r.randrange(3)
+        if c > 0.9:
+            q = self.pick(lambda q, d: q != p)
+            if q is not None:
+                self.emit(f"passign {p} {q}")
+                return
         self.emit(f"pset {p} {v} {path}")
         if c < 0.3:
             # a run of equal values
@@ -112,7 +117,11 @@ class Gen:
         h = self.next_obs
         self.next_obs += 1
         self.obs.append(h)
-        self.emit(f"pobs {p} {k} {lab} {h}")
+        tgt = [q for q, d in self.props.items() if d['rank'] > self.props[p]['rank'] and not d['bound']]
+        if tgt and k != 2 and self.r.random() < self.p.get('obsset', 0.25):
+            self.emit(f"pobsset {p} {k} {lab} {h} {self.r.choice(tgt)}")
+        else:
+            self.emit(f"pobs {p} {k} {lab} {h}")
 
     def op_unobs(self):
         if self.obs:
